@@ -32,6 +32,9 @@ vars == <<hist, base, active, adds, lastInst>>
 
 Init == hist = <<>> /\ base = Base0 /\ active = FALSE /\ adds = {} /\ lastInst = {}
 
+\* (a construction with additions may also go through the pickle module while an activation is in force -
+\* pickle.Unpickler(f, also_allow = A), the class the activation installed: the instance's additions REPLACE the
+\* activation's for that instance, so the same Construct(A) describes it; the harness replays both spellings)
 \* FicklingMLUnpickler.__init__(also_allow = A): returns <<permitted set of the instance, new base>>
 Construct(A) ==
   LET leak == IF ShallowCopy THEN {g \in A : g[1] \in BaseModules} ELSE {}     \* written into the shared inner dict
